@@ -9,9 +9,9 @@
    copy.deepcopy's own dispatch and the reconstruction of built-in containers stay hand-modelled
    (Model/C12GenDispatch.v: dc_step_gen); the run-time library of the generated code is Model/C12GenPrims.v.
    "sim": equal on heap, memo and None-flag, i.e. up to the ghost record that only the hand model writes. *)
-From Coq Require Import ZArith List Bool.
+From Coq Require Import String ZArith List Bool.
 From DV Require Import Model.PyPrims Model.C12Model Model.C12Spec2 Model.C12Shallow Model.C12GenPrims Gen.CopyGen
-  Model.C12GenDispatch Proofs.C12GenSim Proofs.C12GenFacts.
+  Model.C12GenDispatch Proofs.C12GenSim Proofs.C12GenFacts Model.C12Classes Proofs.C12GenClasses.
 Import ListNotations.
 Open Scope Z_scope.
 
@@ -146,3 +146,33 @@ Theorem gen_route_plumbing_is_model :
   /\ gen_namespace_copy_construction_is_seeded_deepcopy = true.
 Proof. exact gen_route_facts. Qed.
 Print Assumptions gen_route_plumbing_is_model.
+
+(* wave 7: WHICH copier copy.deepcopy dispatches to, per class of a copied structure.  The table is read off the class
+   statements of the current source (method resolution order computed from the bases; the body of the __deepcopy__
+   found decides: a function compiled above, a forwarder to Annotable.__deepcopy__, `return self`, the
+   OrderedCaselessDict loop, or - no __deepcopy__, no pickling hook, no __slots__ - the default reconstruction); a
+   class that gains a __deepcopy__, or one whose body changes, makes the translator fail closed.  It is the table the
+   hand model assumes (Model/C12Classes.v); the harness compares it with what the running library resolves for every
+   class of every dumped object. *)
+Theorem gen_class_dispatch_is_model :
+  gen_class_kinds = class_kinds /\ gen_deepcopy_definers = deepcopy_definers.
+Proof. exact (conj gen_class_kinds_eq gen_deepcopy_definers_eq). Qed.
+Print Assumptions gen_class_dispatch_is_model.
+
+(* Bipartition has no __deepcopy__ (plain reconstruction, frozen or not: never handed back as the same object);
+   Annotation has none of its own (Annotable.__deepcopy__: the (owner, attribute) pair of a bound annotation is
+   deep-copied, owner included) *)
+Theorem gen_bipartition_and_annotation_have_no_deepcopy :
+  class_kind gen_class_kinds "Bipartition" = Some KPlain
+  /\ class_kind gen_class_kinds "Annotation" = Some KAnnotable
+  /\ In ("Bipartition"%string, ""%string) gen_deepcopy_resolves_to
+  /\ In ("Annotation"%string, "Annotable"%string) gen_deepcopy_resolves_to
+  /\ ~ In "Bipartition"%string gen_deepcopy_definers /\ ~ In "Annotation"%string gen_deepcopy_definers.
+Proof. exact gen_bipartition_annotation_resolution. Qed.
+Print Assumptions gen_bipartition_and_annotation_have_no_deepcopy.
+
+(* the only classes whose instances copy.deepcopy hands back as they are: the three value classes *)
+Theorem gen_atomic_classes_are_the_value_classes : forall c k,
+  In (c, k) gen_class_kinds -> (k = KAtomic <-> In c value_classes).
+Proof. exact gen_atomic_classes_are_value_classes. Qed.
+Print Assumptions gen_atomic_classes_are_the_value_classes.
